@@ -1,9 +1,9 @@
 #!/bin/sh
 # runs the quick (or given) tier of every claimed check on the current tree; prints one line each
 tier=${1:-quick}
-cd /verif
+cd "$(dirname "$0")"
 for p in $(python3 -c "import json;print(' '.join(c['property_id'] for c in json.load(open('MANIFEST.json'))['checks']))"); do
   s=$(date +%s)
-  timeout 7200 ./check $p --tier $tier > /tmp/runall.$p.log 2>&1; rc=$?
-  echo "$p rc=$rc $(( $(date +%s) - s ))s $(grep -cE '^VIOLATION' /tmp/runall.$p.log) violations $(grep -cE '^KNOWN' /tmp/runall.$p.log) known"
+  timeout 14400 ./check $p --tier $tier > /tmp/runall.$tier.$p.log 2>&1; rc=$?
+  echo "$p rc=$rc $(( $(date +%s) - s ))s $(grep -cE '^VIOLATION' /tmp/runall.$tier.$p.log) violations $(grep -cE '^KNOWN' /tmp/runall.$tier.$p.log) known"
 done
